@@ -119,13 +119,19 @@ func main() {
 				err, pan := sim.Validate(*res.Block, bs)
 				if pan == nil && err == nil {
 					c.Violation("accepted-invalid/reuse-gone-adversarial-supplement", "v1 block re-using an element spent in an earlier block accepted when the stale element is supplied in the supplement",
-						map[string]any{"behaviour": beh.Steps[:i+1]})
+						chain.Payload(sim, beh, i))
 				}
 				mu.Lock()
 				cells[cell+"+adversarial-supplement"]++
 				mu.Unlock()
 			}
 		},
+	}
+	if c.Replay != "" {
+		if !chain.Replay(c, opts) {
+			c.Fatal("replay file holds no behaviour")
+		}
+		c.Finish()
 	}
 	total := chain.RunStats{Tags: map[string]int{}}
 	type run struct {
